@@ -72,6 +72,9 @@ func TestSim(t *testing.T) {
 		tier = "quick"
 	}
 	seed := envU64("VSIM_SEED", 1)
+	props.RunForDiscovery = func(id string, sc props.Scenario) *props.Result {
+		return props.RunOne(t, props.Registry[id], sc, "quick", 0)
+	}
 	w := bufio.NewWriterSize(os.Stdout, 1<<16)
 	defer w.Flush()
 	emit := func(r rec) {
